@@ -119,6 +119,8 @@ class Replay:
         self.lp_res = None
         self.cache_hits = 0
         self.lp_stores = []     # store size at every non-cached LP solve
+        self.sub_prec_hits = [] # (oracle call number, improvement): best_h kept the cached classifier although the oracle's
+                                # answer was strictly better, by less than _PRECISION (known finding F23)
         self.run()
 
     # -- _eval ---------------------------------------------------------------------------------------------------
@@ -158,6 +160,8 @@ class Replay:
             if self.fr.lt(hv, bv - PREC, "best_h improvement"):
                 self.hs.append(h)
                 return len(self.hs) - 1
+            if hv < bv:
+                self.sub_prec_hits.append((self.calls - 1, bv - hv))
             return bi
         self.hs.append(h)
         return 0
